@@ -20,6 +20,12 @@ def resolve(world, v):
                 return UNRESOLVED
             r = c.last.get(v["ref"])
             return UNRESOLVED if r is None else r
+        if "cat" in v and set(v.keys()) == {"cat"}:
+            # a client-chosen string built around something it was told
+            parts = resolve(world, v["cat"])
+            if parts is UNRESOLVED:
+                return UNRESOLVED
+            return "".join(str(x) for x in parts)
         out = {}
         for k, x in v.items():
             r = resolve(world, x)
